@@ -19,7 +19,7 @@ def main():
     t.pins = pins
     fn = t.translate_method(cls, cfg, name, npar)
     contract = cs.get(key)
-    contract.applies(fn.node, npar)
+    contract = contract.select(fn.node, npar)
     g = Generator(fn, contract, {k: cs.get(k) for k in cs.by_key}, 'CXX', 'dev')
     h = g.generate()
     print('frame problems:', h.frame_problems)
